@@ -75,6 +75,13 @@ BODIES = [
     ('annotated_assign', ['>>> T.append("{id}")', '>>> note_{id}: str = "q"', '>>> print(sorted(__annotations__))',
                           "['MODANNOT', 'note_{id}']"]),
     ('reads_annotations', ['>>> T.append("{id}")', '>>> print(sorted(__annotations__))', "['MODANNOT']"]),
+    # a part with top-level await starts a background task and ends without awaiting it; a later doctest awaits something:
+    # what the first one left behind must not wake up inside the second
+    ('spawns_task', ['>>> import asyncio', '>>> T.append("{id}")', '>>> async def ticker():', '...     await asyncio.sleep(0)',
+                     '...     print("tick from {id}")', '...     T.append("tick {id}")', '>>> async def spawn():',
+                     '...     return asyncio.ensure_future(ticker())', '>>> task = await spawn()']),
+    ('awaits_later', ['>>> import asyncio', '>>> T.append("{id}")', '>>> await asyncio.sleep(0.01)', '>>> print("done {id}")',
+                      'done {id}']),
     ('echo_value', ['>>> T.append("{id}")', '>>> if 1:', '...     6 * 7', '42']),
     ('reads_last_value', ['>>> T.append("{id}")', '>>> try:', '...     print("stale", _)', '... except NameError:',
                           '...     print("fresh")', 'fresh']),
@@ -99,7 +106,7 @@ SWITCHED = ('switch', 'switch_bind', 'switch_requires', 'switch_requires_inline'
 
 
 def required_cells(tier):
-    return (['kind:' + k for k in KINDS] + ['history:same-object-twice', 'history:switch-AB', 'history:switch-BA', 'history:missing-submodule-then-package', 'history:echo-then-last-value', 'history:annotate-then-read',
+    return (['kind:' + k for k in KINDS] + ['history:same-object-twice', 'history:switch-AB', 'history:switch-BA', 'history:missing-submodule-then-package', 'history:echo-then-last-value', 'history:annotate-then-read', 'history:task-left-behind-then-await',
             'history:ordered-pair', 'history:random', 'history:fresh-object', 'module-dict-checks', 'baseline-children',
             'session-options:none', 'session-options:given', 'mode:native', 'mode:pytest'] +
             ['history:' + h for h, _ in PATCH_HISTORIES] +
@@ -125,6 +132,8 @@ def gen(rng, uid):
         kinds += [b for b in BODIES if b[0] == 'echo_value'] + [b for b in BODIES if b[0] == 'reads_last_value']
     elif rng.random() < 0.3:
         kinds += [b for b in BODIES if b[0] == 'annotated_assign'] + [b for b in BODIES if b[0] == 'reads_annotations']
+    elif rng.random() < 0.3:
+        kinds += [b for b in BODIES if b[0] == 'spawns_task'] + [b for b in BODIES if b[0] == 'awaits_later']
     # (a package this worker process has not asked about yet, as long as the list lasts)
     try:
         pkg = REQ_PACKAGES[(int(uid.split('x')[1]) // 16) % len(REQ_PACKAGES)]
@@ -279,6 +288,11 @@ def check_module(ctx, idx, seed):
             if kind_of[n] in SWITCHED:
                 histories.append(('switch-AB', [(n, 'A', False), (n, 'B', False)]))
                 histories.append(('switch-BA', [(n, 'B', False), (n, 'A', False), (n, 'B', False)]))
+        spw = [n for n in names if kind_of[n] == 'spawns_task']
+        awl = [n for n in names if kind_of[n] == 'awaits_later']
+        if spw and awl:
+            histories.append(('task-left-behind-then-await', [(spw[0], 'B', False), (awl[0], 'B', False), (spw[0], 'B', False),
+                                                               (awl[0], 'B', False)]))
         ann = [n for n in names if kind_of[n] == 'annotated_assign']
         rann = [n for n in names if kind_of[n] == 'reads_annotations']
         if ann and rann:
